@@ -2,6 +2,7 @@ import Heathcliff.Proofs.C05U
 import Heathcliff.Model.Evaluator
 import Heathcliff.Proofs.C07L
 import Heathcliff.Proofs.GenEval
+import Heathcliff.Proofs.GenRns2
 namespace HC.C05
 /-- the level walk of `mod_switch_to` / `rescale_to` refuses upward targets -/
 theorem switch_up_refused {cur tgt : Nat} (h : cur < tgt) : switchSteps cur tgt = .error .refused := by
@@ -107,5 +108,12 @@ theorem switchTo_ends_on_target : type_of% @HC.switchTo_ends_on_target := @HC.sw
      `cur < 2^64`: a chain index is a `usize` (the fuel of the generated loop). -/
 theorem gen_mod_switch_to_inplace_eq (cur tgt : Nat) (hc : cur < 2^64) :
     HC.GenE.mod_switch_to_inplace cur tgt = HC.switchSteps cur tgt := HC.gy_mod_switch_to_inplace_eq cur tgt hc
+
+/-- translator tie, phase 4c: the routine behind BFV `mod_switch_to_next` (division by the dropped prime with rounding), generated from
+    src/util/rns.rs, equals the hand model on flat buffers -/
+theorem gen_divide_and_round_q_last_inplace_eq : type_of% @HC.gr_divide_and_round_q_last_inplace_eq := @HC.gr_divide_and_round_q_last_inplace_eq
+/-- … and the routine behind BGV `mod_switch_to_next` (NTT form; the (i)NTT calls are abstract inputs instantiated with the model's transforms) -/
+theorem gen_mod_t_and_divide_q_last_ntt_inplace_eq : type_of% @HC.gr_mod_t_and_divide_q_last_ntt_inplace_eq :=
+  @HC.gr_mod_t_and_divide_q_last_ntt_inplace_eq
 
 end HC.C05
